@@ -214,3 +214,19 @@ pub fn b64_decode(s: &str) -> Option<Vec<u8>> {
     }
     Some(out)
 }
+
+/// PKCS#8 PrivateKeyInfo for an SM2 key; `public` = optional SEC1 point bytes for the [1] publicKey field
+pub fn pkcs8_encode(d: &[u8], public: Option<&[u8]>, with_params: bool) -> Vec<u8> {
+    let mut parts = vec![tlv(0x02, &[1]), octets(d)];
+    if with_params {
+        parts.push(tlv(0xa0, &tlv(0x06, &OID_SM2)));
+    }
+    if let Some(p) = public {
+        let mut bs = vec![0u8];
+        bs.extend_from_slice(p);
+        parts.push(tlv(0xa1, &tlv(0x03, &bs)));
+    }
+    let ec = sequence(&parts);
+    let alg = sequence(&[tlv(0x06, &OID_EC_PUBLIC_KEY), tlv(0x06, &OID_SM2)]);
+    sequence(&[tlv(0x02, &[0]), alg, octets(&ec)])
+}
